@@ -227,7 +227,7 @@ def main():
           for pid in props if pid not in CLAIMS]
     man = {
         'version': 1,
-        'setup_cmd': '/venv/bin/python harness/gen_tables.py && cd lean && lake build',
+        'setup_cmd': '/venv/bin/python harness/gen_tables.py && /venv/bin/python harness/gen_source.py && cd lean && lake build',
         'hooks': {'guard': 'EPSIE_VERIF', 'enable': 'none needed: all instrumentation is installed from outside by the harness process (harness/instrument.py); the guard is unused by /repo',
                   'baseline_off_cmd': 'python3 tools/baseline.py', 'source_commits': [], 'add_only': True},
         'engines': [{'name': 'lean-model', 'path': 'lean/', 'serves_properties': sorted(CLAIMS),
